@@ -556,11 +556,11 @@ def run_c15(rep, tier, seed):
             else:
                 c = rng.choice(alive)
                 alive.remove(c)
-                events.append(("end", c, rng.choice(["close", "garbage", "half", "panic", "abort", "abort-half"])))
+                events.append(("end", c, rng.choice(["close", "garbage", "garbage-keep", "badcmd-keep", "half", "panic", "abort", "abort-half"])))
         # faulty phase: 3*max connections that all end badly, then the capacity test
         for _ in range(3 * mx):
             events.append(("connect", nextid))
-            events.append(("end", nextid, rng.choice(["garbage", "half", "panic", "close", "abort", "abort-half"])))
+            events.append(("end", nextid, rng.choice(["garbage", "garbage-keep", "badcmd-keep", "half", "panic", "close", "abort", "abort-half"])))
             nextid += 1
         for c in list(alive):
             events.append(("end", c, "close"))
@@ -580,6 +580,24 @@ def run_c15(rep, tier, seed):
         held = held[1:] + [nextid]
         nextid += 1
         for c in held:
+            events.append(("end", c, "close"))
+        # directed: every slot is used by a connection that the server ends (garbage / unknown command) while the client keeps
+        # its socket open; the full number of new connections must be served straight away
+        kept = list(range(nextid, nextid + mx))
+        nextid += mx
+        for c in kept:
+            events.append(("connect", c))
+        for c in kept:
+            events.append(("probe", c))
+        for c in kept:
+            events.append(("end", c, rng.choice(["badcmd-keep", "garbage-keep"])))
+        again = list(range(nextid, nextid + mx))
+        nextid += mx
+        for c in again:
+            events.append(("connect", c))
+        for c in again:
+            events.append(("probe", c))
+        for c in again:
             events.append(("end", c, "close"))
         fresh = list(range(nextid, nextid + mx + 1))
         for c in fresh:
@@ -635,6 +653,24 @@ def run_c15(rep, tier, seed):
                     how = "garbage"
                 if how == "close":
                     script.append(f"c.close {c}")
+                elif how == "badcmd-keep":
+                    # a well-formed frame that is not a command (PING): the server ends the connection; the client keeps its
+                    # socket open
+                    script.append(f"c.send {c} 2a310d0a24340d0a50494e470d0a")
+                    if c in sv:
+                        script.append(f"c.readall {c} 5000")
+                        checks.append((len(script) - 1, "closed", f"connection {c} sent an unknown command and must be closed by the server"))
+                    else:
+                        script.append(f"c.close {c}")
+                elif how == "garbage-keep":
+                    # the server ends the connection (malformed input); the client does not close its own socket: the slot
+                    # must come back all the same (the socket is closed at the very end of the script)
+                    script.append(f"c.send {c} 00ff2a2a0d0a")
+                    if c in sv:
+                        script.append(f"c.readall {c} 5000")
+                        checks.append((len(script) - 1, "closed", f"connection {c} sent garbage and must be closed by the server"))
+                    else:
+                        script.append(f"c.close {c}")
                 elif how == "garbage":
                     script.append(f"c.send {c} 00ff2a2a0d0a")
                     if c in sv:
@@ -696,7 +732,7 @@ def run_c15(rep, tier, seed):
         if sc == 0:
             rep.sample({"max": mx, "events": [list(e) for e in events][:20], "script": script[:20], "answers": ans[:20]})
     shutil.rmtree(root, ignore_errors=True)
-    rep.cov["rule"] = ("seeded event scripts at max_connections 1/2/3: connect / probe (GET) / end by clean close, garbage, half-sent frame, connection reset (RST, also while still queued behind the limit, with or without a half-sent frame), or handler panic (a store wrapper whose clone() panics once), "
+    rep.cov["rule"] = ("seeded event scripts at max_connections 1/2/3: connect / probe (GET) / end by clean close, garbage or an unknown command (the client closing afterwards or keeping its socket open), half-sent frame, connection reset (RST, also while still queued behind the limit, with or without a half-sent frame), or handler panic (a store wrapper whose clone() panics once), "
                        "then 3*max connections that all end badly, then max+1 fresh connections; the Lean ConnLimit LTS (executed by the driver) predicts after every event which connections are served; "
                        "a served connection must answer within 5 s, an unserved one must stay silent for 250 ms (a slow machine cannot fabricate a reply); non-trivial = distinct script")
 
@@ -881,8 +917,24 @@ def run_c11(rep, tier, seed):
           "c.send b " + req_bytes(("SET", b"k", b"w")).hex(), "kv.merge.bg", "sleep 400", "np.release", "c.read a 1 5000", "c.read b 1 5000", "kv.merge.join 5000",
           f"c.send b {GETk}", "c.read b 1 5000"],
          lambda a: (a[7] == "parked get.lookup" and a[12] in ("B:76", "B:77") and a[13] == "S:4f4b" and a[14] == "done ok" and a[16] == "B:77", "GET -> v or w (never an error / dropped connection), SET -> +OK, merge ok, GET -> w")))
+    ks = [f"6d{i:02x}" for i in range(8)]
+    sets = []
+    for i, k in enumerate(ks):
+        sets += [f"c.send a {req_bytes(('SET', bytes.fromhex(k), bytes([0x30 + i]) * 20)).hex()}", "c.read a 1 5000"]
+    opens = [f"c.open b{i}" for i in range(8)]
+    sends = [f"c.send b{i} {req_bytes(('GET', bytes.fromhex(k))).hex()}" for i, k in enumerate(ks)]
+    reads = [f"c.read b{i} 1 8000" for i in range(8)]
+    n0 = 1 + len(sets) + len(opens)
+    # eight readers on eight connections: the one whose key lives in the shard the parked pass is holding waits for the
+    # release, the others are answered while the pass is in flight; every one of them must get the value that was set
+    forced.append(
+        ("a merge pass is in flight (parked after copying and hinting eight small entries into one output file) while other clients read the keys it has already moved",
+         ["c.open a"] + sets + opens + ["np.park merge.hinted 8", "kv.merge.bg", "np.wait 8000"] + sends + ["sleep 300", "np.release", "kv.merge.join 8000"] + reads,
+         lambda a: (a[n0 + 2] == "parked merge.hinted" and a[n0 + 3 + 8 + 2] == "done ok" and all(a[n0 + 3 + 8 + 3 + i] == "B:" + f"{0x30 + i:02x}" * 20 for i in range(8)),
+                    "every GET answers the value that was set")))
     for name, steps, pred in forced:
-        script = ["srv.start max=16 mfs=0 pool=2 frag=0/1 dead=0 small=1099511627776"] + steps + ["srv.stop"]
+        big = "mfs=1000000" if "eight small entries" in name else "mfs=0"
+        script = [f"srv.start max=16 {big} pool=2 frag=0/1 dead=0 small=1099511627776"] + steps + ["srv.stop"]
         shutil.rmtree(root, ignore_errors=True)
         try:
             ans = run_harness(["net", "--root", root, "--hang-ms", "30000"], script, timeout=120)
